@@ -1507,7 +1507,15 @@ func (r *Replica) findBestLTXSnapshotForTimestamp(ctx context.Context, timestamp
 		return nil, fmt.Errorf("find LTX snapshots: %w", err)
 	}
 	if len(snapshots) == 0 {
-		return nil, nil
+		// A replica that has not written a snapshot-level file yet (e.g. shortly
+		// after upgrading from v0.3.x) is still restorable from its first L0
+		// file, which is a full snapshot. Treat the start of a valid restore
+		// plan as the snapshot so the LTX backup is not ignored.
+		infos, err := CalcRestorePlan(ctx, r.Client, 0, timestamp, r.Logger())
+		if err != nil || len(infos) == 0 {
+			return nil, nil // no usable LTX backup before the timestamp
+		}
+		return infos[0], nil
 	}
 
 	// Return the latest snapshot before the timestamp (last in the sorted list).
